@@ -35,6 +35,21 @@ EXTRA = {
             ("SafeC.Alloc.keeps_reorderLoop", "SafeC.Proofs.AllocTight", "lemma", "unrepaired reorder loop, any mark pattern, any oracle: no surviving run contains a failed request"),
             ("SafeC.Alloc.keeps_composeLoop", "SafeC.Proofs.AllocTight", "lemma", "the same for the compose loop"),
             ("SafeC.Alloc.normProg_wp", "SafeC.Proofs.AllocNorm", "lemma", "wcsnorm_s: scratch buffer + reorder + compose composed")],
+    "C17": [("SafeC.Norm.canonVi_ok", "SafeC.Proofs.NormTables", "table", "every value the three-level canonical lookup can return addresses an existing slot of UNWIF_canon_tbl_1..4 (kernel check over all rows, regenerated tables)"),
+            ("SafeC.Norm.tbl1_stable", "SafeC.Proofs.NormTables2", "table", "every cell of UNWIF_canon_tbl_1 is a non-zero code point that is not decomposable and not a Hangul syllable"),
+            ("SafeC.Norm.tbl2_stable", "SafeC.Proofs.NormTables2", "table", "the same for UNWIF_canon_tbl_2"),
+            ("SafeC.Norm.tbl3_stable", "SafeC.Proofs.NormTables2", "table", "the same for UNWIF_canon_tbl_3"),
+            ("SafeC.Norm.tbl4_stable", "SafeC.Proofs.NormTables2", "table", "the same for UNWIF_canon_tbl_4"),
+            ("SafeC.Norm.ccc_check", "SafeC.Proofs.NormUCD", "table", "combining classes: tree = UCD 14.0 on every assigned code point of every block in which either side has a page (decide +kernel)"),
+            ("SafeC.Norm.dm_check", "SafeC.Proofs.NormUCD", "table", "stored decompositions = recursive expansion of UCD 14.0 mappings, expansion complete and inside the assigned set, every block in which either side has a page; U+037E excepted"),
+            ("SafeC.Norm.comp_fwd_check", "SafeC.Proofs.NormCompose", "table", "every UCD 14.0 primary composite is returned by _composite_cp for its pair and is not excluded (as is, and repaired)"),
+            ("SafeC.Norm.comp_bwd_check", "SafeC.Proofs.NormCompose", "table", "every stored pair with an assigned, non-excluded composite is a UCD 14.0 primary composite with exactly that pair"),
+            ("SafeC.Norm.decLoop_spec", "SafeC.Proofs.NormNFD", "lemma", "the decomposition loop of wcsnorm_decompose_s, every input and size: no out-of-bounds index, and on success the concatenated per-character decompositions, cells used + cells left = dmax"),
+            ("SafeC.Norm.reorderLoop_eq_pure", "SafeC.Proofs.NormReorder", "lemma", "the reorder loop (runs of non-starters collected, sorted by (class, arrival), emitted) = the pure canonical reordering, all lists"),
+            ("SafeC.Norm.composeLoop_no_oob", "SafeC.Proofs.NormRange", "lemma", "the compose loop indexes no table out of bounds on code points (or with the range check), every state of the loop"),
+            ("SafeC.Norm.composeLoop_no_overrun", "SafeC.Proofs.NormRange", "lemma", "with more room than pending cells the compose loop never wraps its unsigned dmax"),
+            ("SafeC.Fold.fold_announce_exceptions", "SafeC.Proofs.FoldCount", "full", "each of the 748 listed code points really disagrees (announces 0 but folds / announces 1 but unchanged): the exception lists of fold_announce_partial are tight"),
+            ("SafeC.Fold.tables_lit", "SafeC.Proofs.FoldCount", "table", "the written-out copies of casemaps / pairs / casemapsl used by the fold proofs equal the generated tables")],
     "C08": [("SafeC.nullSlack_ok", "SafeC.Lemmas", "lemma", "both slack strategies (memset > 0x20, byte loop) zero the whole tail")],
     "C18": [("SafeC.setPrologue_ok", "SafeC.Proofs.MemSet", "lemma", "mem_prim_set alignment prologue: k <= count bytes stored, stops aligned or exhausted"),
             ("SafeC.setBlocks_ok", "SafeC.Proofs.MemSet", "lemma", "mem_prim_set 16-way unrolled body, induction on the block count: q*128 bytes"),
